@@ -428,9 +428,9 @@ func engQuery(e *Env) {
 	ctx := context.Background()
 	r := NewRng(e.Seed)
 	e.Res.Rule = "collections of 6-18 documents over String/Int/Float/Boolean fields with nulls and many ties; queries = filter trees of depth <= 3 (_eq _ne _gt _ge _lt _le _in _nin _like _nlike _ilike _nilike, _and _or _not), 0-2 order keys, limit, offset; aggregates _count _sum _avg _min _max with filters; distinct = distinct (collection, request); non-trivial = the filter is neither always-true nor always-false on the collection; plus a stream of malformed request strings"
-	nColl, nQ, nAgg, nMal := 6, 110, 25, 300
+	nColl, nQ, nAgg, nMal, nGroup := 6, 110, 25, 300, 12
 	if e.thorough() {
-		nColl, nQ, nAgg, nMal = 60, 400, 80, 20000
+		nColl, nQ, nAgg, nMal, nGroup = 60, 400, 80, 20000, 60
 	}
 	if e.N > 0 {
 		nQ = e.N
@@ -722,6 +722,73 @@ func engQuery(e *Env) {
 				e.violate("groupby-count", fmt.Sprintf("%s groupBy cat: %v, expected %v", col, gotG, want), nil)
 			}
 			e.count("groupby")
+		}
+		// group by with a rendered, filtered, sliced _group and aggregates over _group with a wider filter: every group is
+		// compared with plain filtered queries (which are themselves compared with the model above)
+		for gi := 0; gi < nGroup; gi++ {
+			f1 := &qfilter{op: "field", field: 2 + r.Intn(2)}
+			f1.cond = genCond(r, qFields[f1.field].kind)
+			f2 := &qfilter{op: "field", field: 4 * r.Intn(2)} // name or ok
+			f2.cond = genCond(r, qFields[f2.field].kind)
+			inner := func(f *qfilter) string { g := f.gql(); return g[1 : len(g)-1] }
+			f12 := "{" + inner(f1) + ", " + inner(f2) + "}"
+			limit, offset := r.Intn(4), r.Intn(5)
+			if gi%2 == 0 {
+				limit, offset = 0, 0 // the aggregate and the rendered group then differ in their filters only
+			}
+			slice := ""
+			if limit > 0 {
+				slice += fmt.Sprintf(", limit: %d", limit)
+			}
+			if offset > 0 {
+				slice += fmt.Sprintf(", offset: %d", offset)
+			}
+			q := fmt.Sprintf(`query { %s(groupBy: [cat]) { cat _group(filter: %s%s) { _docID } c: _count(_group: {filter: %s}) s: _sum(_group: {field: qty, filter: %s}) } }`, col, f1.gql(), slice, f12, f12)
+			gd, gerr := x.gql(ctx, q)
+			e.Res.Evaluations++
+			e.count("groupby_rendered")
+			if gerr != "" {
+				e.violate("groupby-error", gerr, map[string]any{"request": q})
+				continue
+			}
+			for _, row := range rowsOf(gd, col) {
+				catLit := "null"
+				if sv, ok := row["cat"].(string); ok {
+					catLit = fmt.Sprintf("%q", sv)
+				}
+				members, e1 := w.run(fmt.Sprintf(`(filter: {_and: [{cat: {_eq: %s}}, %s]})`, catLit, f1.gql()))
+				wide, e2 := w.run(fmt.Sprintf(`(filter: {_and: [{cat: {_eq: %s}}, %s]})`, catLit, f12))
+				if e1 != "" || e2 != "" {
+					continue
+				}
+				lo, hi := offset, len(members)
+				if lo > len(members) {
+					lo = len(members)
+				}
+				if limit > 0 && lo+limit < hi {
+					hi = lo + limit
+				}
+				wantIDs := sortedInts(append([]int{}, members[lo:hi]...))
+				var gotIDs []int
+				for _, m := range rowsOf(row, "_group") {
+					gotIDs = append(gotIDs, w.byID[fmt.Sprint(m["_docID"])])
+				}
+				// the members of a group come in scan order: compare as the same slice of the same order
+				if fmt.Sprint(gotIDs) != fmt.Sprint(members[lo:hi]) && fmt.Sprint(sortedInts(append([]int{}, gotIDs...))) != fmt.Sprint(wantIDs) {
+					e.violate("groupby-members", fmt.Sprintf("group cat=%s: _group(filter, limit %d, offset %d) lists documents %v, the filtered members are %v (slice %v)", catLit, limit, offset, gotIDs, members, members[lo:hi]), map[string]any{"request": q})
+				}
+				var wantSum int64
+				for _, i := range wide {
+					if v := w.docs[i].vals[2]; !v.null {
+						wantSum += v.i
+					}
+				}
+				gotC, _ := numOf(row["c"])
+				gotS, _ := numOf(row["s"])
+				if int(gotC) != len(wide) || int64(gotS) != wantSum {
+					e.violate("groupby-aggregate", fmt.Sprintf("group cat=%s: _count/_sum over _group with filter %s = %v/%v, the documents matching that filter in the group give %d/%d", catLit, f12, row["c"], row["s"], len(wide), wantSum), map[string]any{"request": q})
+				}
+			}
 		}
 		// the documents of this collection as a Coq definition shared by its cases
 		qcases = append([]string{fmt.Sprintf("DOCS D%d %s", c, docsCoq)}, qcases...)
